@@ -649,7 +649,7 @@ def property_checks(spec, res, first_only=False) -> list[Failure]:
 def _tolerance_confirmed(spec, res, codes) -> bool:
     """A tolerance disagreement is reported only if it is not explained by conditioning (property residual fine
     and the normal equations ill-conditioned)."""
-    if not set(codes) <= {5, 6, 7, 8, 9, 10, 11, 13, 14, 15}:
+    if not set(codes) <= {5, 6, 7, 8, 9, 10, 11, 12, 13, 14, 15}:
         return True
     if property_checks(spec, res):
         return True
